@@ -146,7 +146,7 @@ partial def runObs (c : Cfg) (w : World) (ops : List Op) (acc : List String) : L
   | op :: rest =>
     let (w', out) := step c w op
     let w' := rzero c w' op out
-    -- side condition of C10_history_partial, checked on every generated history: the model's scratch slot is free between operations
+    -- C10_scratch_slot_free, re-checked at run time on every generated history: the model's scratch slot is free between operations
     let o := opObs c w w' out false ++ (if (w'.imgs tmpSlot).isSome && (match out with | .assertFail _ => false | _ => true) then " model-tmp-not-free" else "")
     match out with
     | .assertFail _ => (o :: acc).reverse
